@@ -44,9 +44,21 @@ def quote(s):
     return '"' + s + '"'
 
 
+ZEROS = ['""', "[]", "nil", "0", "false", "{}"]
+
+
+def elem(kind, i):
+    """element i of an array receiver (source text = canonical rendering): ints, ints alternating with nil elements, zero values"""
+    if kind == "arrnil":
+        return "nil" if i % 2 == 0 else str(10 + i)
+    if kind == "arrzero":
+        return ZEROS[i % len(ZEROS)]
+    return str(10 + i)
+
+
 def recv_src(kind, n):
-    if kind == "arr":
-        return "[" + ", ".join(str(10 + i) for i in range(n)) + "]"
+    if kind.startswith("arr"):
+        return "[" + ", ".join(elem(kind, i) for i in range(n)) + "]"
     return quote(CHARS[kind][:n])
 
 
@@ -56,11 +68,11 @@ def expected(kind, n, case):
         p = pos[0]
         if p < 0:
             return "val:nil"
-        return "val:" + (str(10 + p) if kind == "arr" else goquote(CHARS[kind][p]))
+        return "val:" + (elem(kind, p) if kind.startswith("arr") else goquote(CHARS[kind][p]))
     if case["c"] == 0:
         return "err:ValueErr"
-    if kind == "arr":
-        return "val:[" + ", ".join(str(10 + p) for p in pos) + "]"
+    if kind.startswith("arr"):
+        return "val:[" + ", ".join(elem(kind, p) for p in pos) + "]"
     chars = CHARS[kind]
     return "val:" + goquote("".join(chars[p] for p in pos))
 
@@ -78,10 +90,10 @@ def cls(v, n):
 def signature(kind, case):
     n = case["n"]
     if case["mode"] == "index":
-        return f"C11:index:{'str' if kind != 'arr' else 'arr'}:i={cls(case['a'], n)}"
+        return f"C11:index:{'str' if not kind.startswith('arr') else kind}:i={cls(case['a'], n)}"
     c = case["c"]
     st = "nil" if c == NIL else ("0" if c == 0 else ("huge" if abs(c) >= PINF else ("+" if c > 0 else "-")))
-    return f"C11:slice:{'str' if kind != 'arr' else 'arr'}:step={st}:start={cls(case['a'], n)}:stop={cls(case['b'], n)}"
+    return f"C11:slice:{'str' if not kind.startswith('arr') else kind}:step={st}:start={cls(case['a'], n)}:stop={cls(case['b'], n)}"
 
 
 def build(case, kind, j, form):
@@ -98,7 +110,7 @@ def build(case, kind, j, form):
     rng = f"{a}:{b}" + (f":{c}" if c != "" else "")
     if form == 1:
         return f"r := ({rng}); x := {r}; x[r]"
-    proto = "Arr" if kind == "arr" else "Str"
+    proto = "Arr" if kind.startswith("arr") else "Str"
     return f"{proto}['at]({r}, [({rng})])"
 
 
@@ -116,7 +128,7 @@ def run():
     reqs, meta = [], {}
     for ci, case in enumerate(cases):
         infs = [v for v in (case["a"], case["b"], case["c"]) if v in (PINF, NINF)]
-        for kind in ("arr", "ascii", "multi", "bound"):
+        for kind in ("arr", "arrnil", "arrzero", "ascii", "multi", "bound"):
             for j in (range(3) if infs else range(1)):
                 form = 0
                 h = (ci * 7 + j) % 40
@@ -163,8 +175,8 @@ def run():
     ck.cov["discarded"] = discarded
     ck.cov["exhaustive"] = True
     ck.cov["rule"] = (f"TLC enumerates every (n,start,stop,step) with n in 0..{maxn}, bounds in -n-2..n+2 plus nil, +inf, -inf "
-                      "(inf instantiated as 2^31, 2^62, 2^63-1 / negatives) and every single index; each is replayed on an array, "
-                      "an ASCII string and a multi-byte string; non-trivial = non-empty selection with an omitted, out-of-range or huge bound")
+                      "(inf instantiated as 2^31, 2^62, 2^63-1 / negatives) and every single index; each is replayed on an array of ints, an array with nil elements, "
+                      "an array of zero values, an ASCII string and two multi-byte strings; non-trivial = non-empty selection with an omitted, out-of-range or huge bound")
     ck.assumptions = ["the worker's canonical rendering of arrays/strings is faithful (checked by pv selftest)",
                       "2^31/2^62/2^63-1 stand for every bound beyond the window"]
     if not nontrivial:
